@@ -1,49 +1,74 @@
-import Cuckoo.Model.Proto
+import Cuckoo.Proofs.ProtoInvA
+import Cuckoo.Proofs.ProtoInvB
+import Cuckoo.Proofs.ProtoInvC
+import Cuckoo.Proofs.ProtoInvOrder
 /-!
-The invariant of the protocol transition system and its preservation (helper lemmas only).
+The invariant of the protocol transition system (`PInv`, defined in `ProtoInvBase.lean`) holds in every
+reachable state.  Preservation per event: `ProtoInvA.lean` (loads, `lock_all` brackets), `ProtoInvB.lean`
+(`acquire`, `release`), `ProtoInvC.lean` (owner events).
 -/
 namespace Cuckoo.Proto
 
-/-- reachable from an initial state by an accepted trace -/
-def Reach (s : PS) : Prop := ∃ hp n evs, 0 < n ∧ run (init hp n) evs = some s
-
-/-- `held` lists are strictly descending (most recent = largest first) -/
-def Desc : List LockId → Prop
-  | [] => True
-  | [_] => True
-  | a :: b :: rest => b < a ∧ Desc (b :: rest)
-
-structure PInv (s : PS) : Prop where
-  gens_ne : s.gens ≠ []
-  gens_pos : ∀ n ∈ s.gens, 0 < n
-  /-- ownership of locks is exactly what the threads believe -/
-  held_iff : ∀ t l, l ∈ (s.th t).held ↔ s.holder l = some t
-  held_desc : ∀ t, Desc (s.th t).held
-  held_range : ∀ l t, s.holder l = some t → l.gen < s.gens.length ∧ l.idx < s.gens.getD l.gen 0
-  /-- snapshots never run ahead of the counter -/
-  rc_le : ∀ t, (s.th t).snapRc ≤ s.rc
-  /-- a sound snapshot with a current counter has the current hashpower and sees the current lock array as current,
-  unless a resizer is between its change and its counter bump -/
-  snap : ∀ t, (s.th t).hpOk = true → (s.th t).snapRc = s.rc → (s.th t).snapHp = s.hp ∨ ∃ z, (s.th z).dirty = true
-  /-- a validated thread holds locks of the current array only, and at least one -/
-  val_cur : ∀ t, (s.th t).validated = true → (s.th t).held ≠ [] ∧ (∀ l ∈ (s.th t).held, l.gen = s.curGen) ∧
-    (s.th t).snapRc = s.rc ∧ (s.th t).hpOk = true
-  pend_one : ∀ t, (s.th t).pendingVal = true → ∃ l, (s.th t).held = [l]
-  /-- an owner holds every lock of the current array -/
-  owner_all : ∀ t, (s.th t).owner = true → s.holdsAllCur t = true
-  dirty_owner : ∀ t, (s.th t).dirty = true → (s.th t).owner = true
-  /-- every lock of an array older than the newest generation that a non-owner pending/validated thread may hold … -/
-  val_excl : ∀ t, (s.th t).validated = true → (s.th t).owner = false ∨ (s.th t).owner = true
-  /-- while someone is dirty, nobody else has a lock of the current array -/
-  hp_in_hold : ∀ t, (s.th t).hpInHold = true → (s.th t).validated = true ∧ (s.th t).snapHp = s.hp
-
 theorem init_inv (hp n : Nat) (hn : 0 < n) : PInv (init hp n) := by
-  sorry
+  constructor
+  · simp [init]
+  · intro m hm; simp only [init, List.mem_singleton] at hm; omega
+  · intro t l; simp [init]
+  · intro t; simp [init]
+  · intro l t hl; simp [init] at hl
+  · intro t; simp [init]
+  · intro t; simp [init]
+  · intro t hh; simp [init] at hh
+  · intro t hh; simp [init] at hh
+  · intro t hh; simp [init] at hh
+  · intro t hh; simp [init] at hh
+  · intro t hh; simp [init] at hh
+  · intro t hh; simp [init] at hh
 
 theorem accept_inv (s s' : PS) (e : Ev) (h : PInv s) (ha : accept s e = some s') : PInv s' := by
-  sorry
+  cases e with
+  | rcLoad t => exact inv_rcLoad h t ha
+  | hpLoad t => exact inv_hpLoad h t ha
+  | genLoad t => exact inv_genLoad h t ha
+  | acquire t l => exact inv_acquire h t l ha
+  | release t l => exact inv_release h t l ha
+  | access t st =>
+    simp only [accept] at ha
+    split at ha
+    · cases ha; exact h
+    · cases ha
+  | allBegin t => exact inv_allBegin h t ha
+  | allEnd t => exact inv_allEnd h t ha
+  | storeHp t v => exact inv_storeHp h t v ha
+  | append t n => exact inv_append h t n ha
+  | bumpRc t => exact inv_bumpRc h t ha
+  | opEnd t k =>
+    simp only [accept] at ha
+    split at ha
+    · split at ha
+      · cases ha; exact h
+      · cases ha
+    · split at ha
+      · cases ha; exact h
+      · cases ha
+  | sectionEnd t =>
+    simp only [accept] at ha
+    split at ha
+    · cases ha; exact h
+    · cases ha
+
+theorem run_inv (evs : List Ev) : ∀ (s s' : PS), PInv s → run s evs = some s' → PInv s' := by
+  induction evs with
+  | nil => intro s s' h hr; simp only [run] at hr; cases hr; exact h
+  | cons e es ih =>
+    intro s s' h hr
+    simp only [run] at hr
+    split at hr
+    next s1 h1 => exact ih s1 s' (accept_inv s s1 e h h1) hr
+    · cases hr
 
 theorem reach_inv (s : PS) (h : Reach s) : PInv s := by
-  sorry
+  obtain ⟨hp, n, evs, hn, hr⟩ := h
+  exact run_inv evs _ s (init_inv hp n hn) hr
 
 end Cuckoo.Proto
